@@ -25,7 +25,7 @@ class SchedulerError(BaseException):
 
 
 class Scheduler:
-    def __init__(self, src_prefix, rng=None, p=0.0, p_boost=0.0, change_points=None, script=None, max_steps=5_000_000):
+    def __init__(self, src_prefix, rng=None, p=0.0, p_boost=0.0, change_points=None, script=None, max_steps=20_000_000):
         self.src_prefix = src_prefix
         self.rng = rng
         self.p = p
